@@ -29,7 +29,7 @@ REPO = Path(os.environ.get("VERIF_REPO", "/repo"))
 FLAG = {"GOOD": ".good", "UNKNOWN": ".unknown", "SUSPECT": ".suspect", "FAIL": ".fail", "MISSING": ".missing"}
 FUNCS = {"gross_range_test": "ioos_qc/qartod.py", "spike_test": "ioos_qc/qartod.py", "rate_of_change_test": "ioos_qc/qartod.py",
          "location_test": "ioos_qc/qartod.py", "density_inversion_test": "ioos_qc/qartod.py",
-         "flat_line_test": "ioos_qc/qartod.py", "qartod_compare": "ioos_qc/qartod.py", "speed_test": "ioos_qc/argo.py", "pressure_increasing_test": "ioos_qc/argo.py", "valid_range_test": "ioos_qc/axds.py"}
+         "flat_line_test": "ioos_qc/qartod.py", "climatology_test": "ioos_qc/qartod.py", "qartod_compare": "ioos_qc/qartod.py", "speed_test": "ioos_qc/argo.py", "pressure_increasing_test": "ioos_qc/argo.py", "valid_range_test": "ioos_qc/axds.py"}
 
 
 class Untranslatable(Exception):
@@ -595,7 +595,245 @@ class Tr:
         return head + "\n" + "\n".join(self.lines) + "\n"
 
 
+# ------------------------------------------------------------------------------------------------------------------------------
+# ClimatologyConfig.check + climatology_test: a `for` loop over the members with a `continue`, masked / plain boolean index algebra
+# ------------------------------------------------------------------------------------------------------------------------------
+class TrClim:
+    """kinds: "rats" (a time / period column), "marr", "pb" (plain bool array), "mb" (masked bool array), "flags"."""
+
+    SPANS = {"tspan", "vspan", "fspan", "zspan"}
+
+    def __init__(self, tree):
+        self.tree = tree
+        self.lines = []
+        self.kind = {"tinp": "times", "inp": "marr", "zinp": "marr"}
+        self.opt = {}                      # span name -> local name bound by `if let some`
+        self.declared = set()
+
+    def emit(self, ind, text):
+        self.lines.append("  " * ind + text)
+
+    def scalar(self, e):
+        # m.<span>.minv / .maxv
+        if isinstance(e, ast.Attribute) and e.attr in ("minv", "maxv") and isinstance(e.value, ast.Attribute) and src(e.value.value) == "m" \
+                and e.value.attr in self.SPANS:
+            sp = e.value.attr
+            base = self.opt.get(sp) if sp in ("fspan", "zspan") else f"m.{sp}"
+            if base is None:
+                raise Untranslatable(f"{src(e)} outside `if not isnan(m.{sp})`")
+            return f"{base}.{1 if e.attr == 'minv' else 2}"
+        raise Untranslatable(f"scalar {src(e)}")
+
+    def bexpr(self, e):
+        """-> (lean text, kind in {"pb", "mb"})"""
+        if isinstance(e, ast.Name) and self.kind.get(e.id) in ("pb", "mb"):
+            return e.id, self.kind[e.id]
+        if isinstance(e, ast.UnaryOp) and isinstance(e.op, ast.Invert):
+            if isinstance(e.operand, ast.Attribute) and e.operand.attr == "mask" and self.kind.get(src(e.operand.value)) == "marr":
+                return f"notP (maskOf {src(e.operand.value)})", "pb"
+            if is_call(e.operand, "np.isnan") and src(e.operand.args[0]).endswith(".data") and self.kind.get(src(e.operand.args[0])[:-5]) == "marr":
+                return f"notP (isnanData {src(e.operand.args[0])[:-5]})", "pb"
+            t, k = self.bexpr(e.operand)
+            return (f"notP ({t})", "pb") if k == "pb" else (f"notB {self.par(t)}", "mb")
+        if isinstance(e, ast.Compare) and len(e.ops) == 1 and isinstance(e.left, ast.Name):
+            k = self.kind.get(e.left.id)
+            if k == "rats":
+                op = {ast.GtE: "geR", ast.LtE: "leR"}.get(type(e.ops[0]))
+                if op:
+                    return f"{op} {e.left.id} {self.scalar(e.comparators[0])}", "pb"
+            if k == "marr":
+                op = {ast.Lt: "ltS", ast.Gt: "gtS", ast.GtE: "geS", ast.LtE: "leS"}.get(type(e.ops[0]))
+                if op:
+                    return f"{op} {e.left.id} {self.scalar(e.comparators[0])}", "mb"
+        if isinstance(e, ast.BinOp) and isinstance(e.op, (ast.BitAnd, ast.BitOr)):
+            (a, ka), (b, kb) = self.bexpr(e.left), self.bexpr(e.right)
+            if isinstance(e.op, ast.BitAnd):
+                if ka == kb == "pb":
+                    return f"band {self.par(a)} {self.par(b)}", "pb"
+                a = a if ka == "mb" else f"plainB {self.par(a)}"
+                b = b if kb == "mb" else f"plainB {self.par(b)}"
+                return f"andB {self.par(a)} {self.par(b)}", "mb"
+            if ka == kb == "mb":
+                return f"bor {self.par(a)} {self.par(b)}", "mb"
+        if is_call(e, "np.ma.array") and not e.args and {k.arg for k in e.keywords} == {"data", "mask", "fill_value"}:
+            kw = {k.arg: k.value for k in e.keywords}
+            d, kd = self.bexpr(kw["data"])
+            if kd == "pb" and isinstance(kw["mask"], ast.Attribute) and kw["mask"].attr == "mask" and self.kind.get(src(kw["mask"].value)) == "marr":
+                return f"zipMask {self.par(d)} (maskOf {src(kw['mask'].value)})", "mb"
+        if is_call(e, "np.zeros") and len(e.args) == 1 and src(e.args[0]).endswith(".size") and [(k.arg, src(k.value)) for k in e.keywords] == [("dtype", "bool")]:
+            return f"List.replicate {src(e.args[0])[:-5]}.length false", "pb"
+        raise Untranslatable(f"boolean expression {src(e)}")
+
+    @staticmethod
+    def par(t):
+        return t if " " not in t else f"({t})"
+
+    def flag(self, e):
+        if isinstance(e, ast.Attribute) and src(e.value) in ("QartodFlags", "FLAGS") and e.attr in FLAG:
+            return FLAG[e.attr]
+        raise Untranslatable(f"flag {src(e)}")
+
+    def not_isnan_span(self, t):
+        """`not isnan(m.<span>)` -> span name"""
+        if isinstance(t, ast.UnaryOp) and isinstance(t.op, ast.Not) and is_call(t.operand, "isnan") and len(t.operand.args) == 1:
+            a = t.operand.args[0]
+            if isinstance(a, ast.Attribute) and src(a.value) == "m" and a.attr in ("fspan", "zspan"):
+                return a.attr
+        return None
+
+    def assign_both(self, st, ind, name, lean_type):
+        """if/else whose branches each assign `name` (possibly nested): declare first, then assign in the branches."""
+        self.emit(ind, f"let mut {name} : {lean_type} := []")
+        self.declared.add(name)
+
+    def block(self, stmts, ind):
+        for st in stmts:
+            self.stmt(st, ind)
+
+    def set_var(self, ind, name, text, kind):
+        want = self.kind.get(name)
+        if name in self.declared:
+            if want == "mb" and kind == "pb":
+                text = f"plainB {self.par(text)}"
+            return self.emit(ind, f"{name} := {text}")
+        self.kind[name] = kind
+        self.declared.add(name)
+        return self.emit(ind, f"let mut {name} := {text}")
+
+    def stmt(self, st, ind):  # noqa: C901, PLR0911, PLR0912
+        if isinstance(st, ast.With) and all(src(i.context_expr).startswith("np.errstate(") for i in st.items):
+            return self.block(st.body, ind)
+        if isinstance(st, ast.Continue):
+            return self.emit(ind, "continue")
+        if isinstance(st, ast.Return) and isinstance(st.value, ast.Name) and self.kind.get(st.value.id) == "flags":
+            return self.emit(ind, f"return {st.value.id}")
+        if isinstance(st, ast.Expr) and is_call(st.value, "flag_arr.fill") and len(st.value.args) == 1:
+            return self.emit(ind, f"flag_arr := fillFlags flag_arr {self.flag(st.value.args[0])}")
+        if isinstance(st, ast.For) and src(st.target) == "m" and src(st.iter) == "self._members" and not st.orelse:
+            self.emit(ind, "for m in members do")
+            return self.block(st.body, ind + 1)
+        if isinstance(st, ast.Assign) and len(st.targets) == 1:
+            tgt, val = st.targets[0], st.value
+            if isinstance(tgt, ast.Name):
+                name = tgt.id
+                if src(val) == "np.ma.empty(inp.size, dtype='uint8')":
+                    self.kind[name] = "flags"
+                    self.declared.add(name)
+                    return self.emit(ind, f"let mut {name} := emptyFlags inp.length")
+                if name == "tinp_copy":
+                    if src(val) == "pd.Index(tinp.isocalendar().week, dtype='int64')":
+                        return self.emit(ind, "tinp_copy := isoWeekOf periodOf tinp")
+                    if src(val) == "getattr(tinp, m.period).to_numpy()" and self.opt.get("period"):
+                        return self.emit(ind, f"tinp_copy := attrOf periodOf {self.opt['period']} tinp")
+                    if src(val) == "tinp":
+                        return self.emit(ind, "tinp_copy := asInstants tinp")
+                    raise Untranslatable(f"tinp_copy = {src(val)}")
+                t, k = self.bexpr(val)
+                return self.set_var(ind, name, t, k)
+            if isinstance(tgt, ast.Subscript) and isinstance(tgt.value, ast.Name) and self.kind.get(tgt.value.id) == "flags":
+                a, sl = tgt.value.id, tgt.slice
+                if isinstance(sl, ast.Attribute) and sl.attr == "mask" and self.kind.get(src(sl.value)) == "marr":
+                    return self.emit(ind, f"{a} := setWhere {a} (maskOf {src(sl.value)}) {self.flag(val)}")
+                t, k = self.bexpr(sl)
+                if k != "mb":
+                    raise Untranslatable(f"index {src(sl)}")
+                return self.emit(ind, f"{a} := setWhereB {a} {self.par(t)} {self.flag(val)}")
+        if isinstance(st, ast.If):
+            t = st.test
+            # if m.period is not None: <week / attribute> else: tinp_copy = tinp
+            if src(t) == "m.period is not None" and st.orelse:
+                self.emit(ind, "let mut tinp_copy : List Rat := []")
+                self.kind["tinp_copy"] = "rats"
+                self.declared.add("tinp_copy")
+                self.opt["period"] = "period"
+                self.emit(ind, "if let some period := m.period then")
+                self.block(st.body, ind + 1)
+                self.opt.pop("period")
+                self.emit(ind, "else")
+                return self.block(st.orelse, ind + 1)
+            if src(t) == "m.period in WEEK_PERIODS" and st.orelse and self.opt.get("period"):
+                self.check_week_periods()
+                self.emit(ind, "if period = Period.week then")
+                self.block(st.body, ind + 1)
+                self.emit(ind, "else")
+                return self.block(st.orelse, ind + 1)
+            if src(t) == "not isnan(m.zspan) and (not zinp.count() or isnan(zinp.any()))" and not st.orelse:
+                self.emit(ind, "if m.zspan.isSome && noneUnmasked zinp then")
+                return self.block(st.body, ind + 1)
+            sp = self.not_isnan_span(t)
+            if sp and st.orelse:
+                # both branches assign one masked-boolean variable
+                names = {src(n.targets[0]) for b in (st.body, st.orelse) for n in ast.walk(ast.Module(body=b, type_ignores=[]))
+                         if isinstance(n, ast.Assign)}
+                if len(names) != 1:
+                    raise Untranslatable(f"if {src(t)}: assigns {names}")
+                name = names.pop()
+                self.emit(ind, f"let mut {name} : BArr := []")
+                self.kind[name] = "mb"
+                self.declared.add(name)
+                self.opt[sp] = sp
+                self.emit(ind, f"if let some {sp} := m.{sp} then")
+                self.block(st.body, ind + 1)
+                self.opt.pop(sp)
+                self.emit(ind, "else")
+                return self.block(st.orelse, ind + 1)
+        raise Untranslatable(f"statement {src(st)[:80]}")
+
+    def check_week_periods(self):
+        for n in self.tree.body:
+            if isinstance(n, ast.Assign) and src(n.targets[0]) == "WEEK_PERIODS":
+                if sorted(ast.literal_eval(n.value)) == ["week", "weekofyear"]:
+                    return
+        raise Untranslatable("WEEK_PERIODS is not ['week', 'weekofyear'] (the two spellings the model reads as Period.week)")
+
+    def run(self):
+        cls = next(n for n in self.tree.body if isinstance(n, ast.ClassDef) and n.name == "ClimatologyConfig")
+        chk = next(n for n in cls.body if isinstance(n, ast.FunctionDef) and n.name == "check")
+        if [a.arg for a in chk.args.args] != ["self", "tinp", "inp", "zinp"]:
+            raise Untranslatable("signature of ClimatologyConfig.check")
+        self.block([s_ for s_ in chk.body if not (isinstance(s_, ast.Expr) and isinstance(s_.value, ast.Constant))], 1)
+        head = ("def climatology_check (periodOf : Period → Int → Int) (members : List Member) (tinp : List Int) (inp : MArr) (zinp : MArr)"
+                " : Res := do")
+        check = head + "\n" + "\n".join(self.lines) + "\n"
+        # the wrapper: conversions of the carriers are dropped (C15's subject); `config.check(...)` is the method above
+        fn = next(n for n in self.tree.body if isinstance(n, ast.FunctionDef) and n.name == "climatology_test")
+        if [a.arg for a in fn.args.args] != ["config", "inp", "tinp", "zinp"]:
+            raise Untranslatable("signature of climatology_test")
+        out = []
+        for st in fn.body:
+            t = src(st)
+            if isinstance(st, ast.Expr) and isinstance(st.value, ast.Constant):
+                continue
+            if t in ("config = ClimatologyConfig.convert(config)", "tinp = mapdates(tinp)", "original_shape = inp.shape",
+                     "tinp = pd.DatetimeIndex(tinp.flatten())", "inp = inp.flatten()", "zinp = zinp.flatten()"):
+                continue
+            if isinstance(st, ast.With) and src(st.items[0].context_expr) == "warnings.catch_warnings()":
+                for b in st.body:
+                    tb = src(b)
+                    if tb == "warnings.simplefilter('ignore')":
+                        continue
+                    for v in ("inp", "zinp"):
+                        if tb == f"{v} = " + NORMALISE.format(v):
+                            out.append(f"  let {v} := ofInput {v}")
+                            break
+                    else:
+                        raise Untranslatable(f"climatology_test: {tb[:60]}")
+                continue
+            if t == "flag_arr = config.check(tinp, inp, zinp)":
+                out.append("  let mut flag_arr ← climatology_check periodOf config tinp inp zinp")
+                continue
+            if t == "return flag_arr.reshape(original_shape)":
+                out.append("  return flag_arr")
+                continue
+            raise Untranslatable(f"climatology_test: {t[:60]}")
+        head2 = ("def climatology_test (periodOf : Period → Int → Int) (config : List Member) (inp : List V) (tinp : List Int) (zinp : List V)"
+                 " : Res := do")
+        return check + "\n" + head2 + "\n" + "\n".join(out) + "\n"
+
+
 def translate(name: str) -> str:
+    if name == "climatology_test":
+        return TrClim(ast.parse((REPO / "ioos_qc/qartod.py").read_text())).run()
     tree = ast.parse((REPO / FUNCS[name]).read_text())
     for node in tree.body:
         if isinstance(node, ast.FunctionDef) and node.name == name:
